@@ -25,9 +25,11 @@ try:
     tests = sh(['/venv/bin/python', '-m', 'pytest', '-q', '-p', 'no:cacheprovider'], cwd='/repo').stdout.strip().splitlines()[-1]
     results = {}
     props = sorted(re.findall(r'c(\d+)\.py', ' '.join(os.listdir(os.path.join(V, 'rules')))))
-    for n in props:
+    from concurrent.futures import ThreadPoolExecutor
+    with ThreadPoolExecutor(16) as ex:
+        runs = list(ex.map(lambda n: (n, sh([os.path.join(V, 'check'), f'C{n}', '--no-evidence'], cwd=V)), props))
+    for n, r in runs:
         p = f'C{n}'
-        r = sh([os.path.join(V, 'check'), p, '--no-evidence'], cwd=V)
         if r.returncode != 0:
             results[p] = {'exit': r.returncode,
                           'refuted': [l.strip()[:300] for l in r.stdout.splitlines() if l.strip().startswith('refuted')][:6],
